@@ -142,6 +142,10 @@ func init() {
 			if fn := env.Prog.Func("cmd/aa-log", "aaLog"); fn != nil {
 				g.Static = append(g.Static, frame.ConsumedOnce(env.Prog, fn, []string{"pkg/logs.New", "pkg/logs.GetApparmorLogs"}))
 			}
+			// what aa-log shows is what its producers return (no later rewriting of the text)
+			if fn := env.Prog.Func("cmd/aa-log", "aaLog"); fn != nil {
+				g.Static = append(g.Static, frame.PrintsProducers(env.Prog, fn, []string{"strings.Join<pkg/logs.GetApparmorLogs", "pkg/logs.AppArmorLogs).String<pkg/logs.New", "pkg/aa.Profile).String"}))
+			}
 			// "reports nothing that is not in the input": no value is interpreted as a format
 			g.Static = append(g.Static, frame.ConstantFormats(env.Prog, reach))
 			g.Unverified = []string{
